@@ -37,7 +37,8 @@ def long_sessions(rng, tier):
 
 
 def run(tier, seed, replay):
-    kws = [dict(events=True, weights=dict(sev=4.0, cev=3.0, edeliver=6.0)), dict(events=True, nclients=3, sessions=True), dict(events=True, auth="custom", nclients=2), dict(events=True, nclients=3, weights=dict(session=0.6))]
+    kws = [dict(events=True, weights=dict(sev=4.0, cev=3.0, edeliver=6.0)), dict(events=True, nclients=3, sessions=True), dict(events=True, auth="custom", nclients=2), dict(events=True, nclients=3, weights=dict(session=0.6)),
+           dict(events=True, nclients=2, sessions=True, quick_reconnect=0.6, weights=dict(session=0.9, sev=4.0, edeliver=5.0))]
     return sim_check("C05", tier, seed, kws, n_quick=240, n_thorough=24000, oracle_props={"C05"}, custom_scripts=long_sessions,
                      rule_extra=", long-lived quiet connections next to fresh ones (update ticks of different encoding widths), events of five server types and three client types in both directions, all send modes, clients connecting, authorizing and disconnecting at arbitrary points",
                      extra_assumptions=["intended recipients of a dependent event are the connections that exist when it is written and are authorized when the tick flushes it (unauthorized connections only get independent events, C07)",
